@@ -92,7 +92,7 @@ def main() -> int:
     # M
     ck.model_check("ReportLexer", "MC_ReportLexer.cfg" if ck.quick else "MC_ReportLexer_thorough.cfg", "report lexer: accepts exactly headline + bulleted entries", workers=4, timeout=600)
     ck.model_check("Pipeline", "MC_Pipeline.cfg", "pipeline design (strict): ExitIffSilent, StdoutTail, ReportShape, FoundSubsetReported, NoOtherTermination", workers=4, timeout=600)
-    ck.model_check("Pipeline", "MC_PipelineLoose.cfg", "pipeline contract (any order of passes, skipped stages): same clauses", workers=8, timeout=900)
+    ck.model_check("Pipeline", "MC_PipelineLoose_quick.cfg" if ck.quick else "MC_PipelineLoose.cfg", "pipeline contract (any order of passes, skipped stages): same clauses", workers=8, timeout=1500)
     rp = pipe_check.replay_case()
     pair_ids = {}
     if rp is not None:
